@@ -90,6 +90,13 @@ func genC18Registry(r *Rng) *Scenario {
 		base = "."
 		sc.Files = append(sc.Files, File{Path: sc.Cwd + "/sub/deeper/keep.txt", Data: "x", Role: "other"})
 	}
+	if sp.kind == "plain" && r.Chance(40) {
+		// parent segments that leave the working directory and come back: ../<cwd's name>/<dir>
+		sp = spelling{"parent-out", "../" + filepath.Base(sc.Cwd) + "/" + base}
+		if r.Chance(40) {
+			sp.dir = base + "/" + strings.Repeat("../", len(strings.Split(base, "/"))+1) + filepath.Base(sc.Cwd) + "/" + base
+		}
+	}
 	ex := &C18Expect{Kind: "registry", Plain: map[string]string{}, Spelling: sp.kind}
 	seen := map[string]bool{}
 	add := func(rel, data, role string) {
@@ -133,6 +140,13 @@ func genC18Registry(r *Rng) *Scenario {
 		} else {
 			sc.Files = sc.Files[:len(sc.Files)-1]
 		}
+	}
+	// a template larger than 1 MiB whose distinguishing content is at its very end
+	if r.Chance(4) {
+		rel := "huge"
+		add(rel+ext, "<pre>"+strings.Repeat("0123456789abcdef", 65540)+"</pre><p>TAIL {{ n1 }}</p>", "page")
+		ex.Names = append(ex.Names, rel)
+		ex.Plain[rel] = root + "/" + rel + ext
 	}
 	// dot files and dot directories next to (and as) templates
 	if r.Chance(35) {
@@ -245,6 +259,11 @@ func checkC18Registry(sc *Scenario, acc *Acc) *c18Fail {
 	ex := sc.C18
 	w := NewWorld(sc.Cwd, sc.Files)
 	pinSeams()
+	// the step ceiling scales with the amount of source text (a 1 MiB template is legitimate)
+	var Budget int64 = Budget
+	for _, f := range sc.Files {
+		Budget += 80 * int64(len(f.Data))
+	}
 	lo := w.RunOp(sc.Ops[0], Budget)
 	acc.Evals++
 	acc.Steps += lo.Steps
@@ -632,7 +651,7 @@ func (p c18) Run(seed uint64, run int, tier string, acc *Acc) *Violation {
 		return nil
 	}
 	// fault enumeration on a healthy tree
-	t := GenTree(r, TreeOpts{Pages: r.Range(1, 3), Depth: 1, Ext: Pick(r, []string{".tw", ".tw.html"}), NoBig: true, LayoutComp: r.Chance(50)})
+	t := GenTree(r, TreeOpts{Pages: r.Range(1, 3), Depth: 1, Ext: Pick(r, []string{".tw", ".tw.html"}), NoBig: true, LayoutComp: r.Chance(50), Debug: r.Chance(50)})
 	base := &Scenario{Prop: "C18", Family: "faults", Cwd: t.Cwd, Files: t.Clean(), Seed: seed, Run: run}
 	base.Ops = []Op{t.LoadOp()}
 	EventLog = base.Hash()
